@@ -1085,6 +1085,13 @@ def simp(v):
             pm = prefix_map(base)
             if pm and not pm[3] and pm[2] == idx[1]:
                 return simp(subst(pm[1], {pm[0]: idx[3][0]}))
+    # a list literal grown by (conditional) appends outside loops is still a literal list, case by case
+    if k == "appended" and v[1][0] == "list" and not any(e[0] == "star" for e in v[1][1]):
+        return simp(("list", tuple(v[1][1]) + (v[2],)))
+    if k == "appended" and v[1][0] in ("phi", "ifexp"):
+        return (v[1][0], v[1][1], simp(("appended", v[1][2], v[2])), simp(("appended", v[1][3], v[2])))
+    if k == "join" and v[2][0] in ("phi", "ifexp") and v[1][0] == "const":
+        return (v[2][0], v[2][1], simp(("join", v[1], v[2][2])), simp(("join", v[1], v[2][3])))
     if k == "join" and v[1][0] == "const" and isinstance(v[1][1], str) and v[2][0] in ("list", "tuple") \
             and all(e[0] in ("const", "fstr") and (e[0] != "const" or isinstance(e[1], str)) for e in v[2][1]):
         parts = []
